@@ -270,7 +270,7 @@ func TestC06(t *testing.T) {
 		}
 	}
 	// multi-session worlds (the outbound FSM object is reused: stale timer state) and random pairs
-	n := c.N(3000, 80000)
+	n := c.N(3000, 200000)
 	for i := 0; i < n; i++ {
 		if !c.Mine("multi", i) {
 			continue
